@@ -1,4 +1,5 @@
 import Spok.App
+import Spok.Lemmas.App
 import Spok.Judge.Cli
 /-! # C09 — a failing command fails the invocation
 
@@ -17,46 +18,6 @@ clause: it is the theorem `C09_failure_not_recorded` of the **run** engine (`Spo
 clause `b` of the judge). -/
 namespace Spok.Props.C09
 open Spok.App
-
-/-- a task is not ok exactly when one of its commands has a non-zero status -/
-theorem not_ok_iff (r : Result) : r.ok = false ↔ ∃ c ∈ r.cmds, c.status ≠ 0 := by
-  simp [Result.ok, CmdResult.ok, List.all_eq_false]
-
-/-- the loop finds the FIRST failing task: everything before it is ok, it is not, and it is the one named -/
-theorem firstFailing_spec (rs : List Result) (h : ∃ r ∈ rs, ∃ c ∈ r.cmds, c.status ≠ 0) :
-    ∃ pre r post c, rs = pre ++ r :: post ∧ (∀ p ∈ pre, p.ok = true) ∧ r.ok = false ∧
-      c ∈ r.cmds ∧ c.status ≠ 0 ∧ firstFailing rs = some (r.task, c) := by
-  induction rs with
-  | nil => obtain ⟨r, hr, _⟩ := h; cases hr
-  | cons r rs ih =>
-    cases hok : r.ok with
-    | false =>
-      obtain ⟨c, hc, hn⟩ := (not_ok_iff r).mp hok
-      cases hf : r.cmds.find? (fun c => !c.ok) with
-      | none =>
-        have := List.find?_eq_none.mp hf c hc
-        simp [CmdResult.ok] at this
-        exact absurd this hn
-      | some c' =>
-        refine ⟨[], r, rs, c', rfl, by simp, hok, List.mem_of_find?_eq_some hf, ?_, ?_⟩
-        · have := List.find?_some hf
-          simpa [CmdResult.ok] using this
-        · simp [firstFailing, hok, hf]
-    | true =>
-      have h' : ∃ r' ∈ rs, ∃ c ∈ r'.cmds, c.status ≠ 0 := by
-        obtain ⟨r', hr', c, hc, hn⟩ := h
-        cases hr' with
-        | head =>
-          have : r.ok = false := (not_ok_iff r).mpr ⟨c, hc, hn⟩
-          rw [hok] at this; cases this
-        | tail _ hm => exact ⟨r', hm, c, hc, hn⟩
-      obtain ⟨pre, r', post, c, he, hpre, hr', hc, hn, hf⟩ := ih h'
-      refine ⟨r :: pre, r', post, c, by simp [he], ?_, hr', hc, hn, ?_⟩
-      · intro p hp
-        cases hp with
-        | head => exact hok
-        | tail _ hm => exact hpre p hm
-      · simp [firstFailing, hok, hf]
 
 /-- **C09.**  For EVERY option record (`--quiet`, `--json`, `--force`, … in any combination) and every list of
     results, however many of them succeeded: if some command of some executed task has a non-zero status then
